@@ -15,6 +15,9 @@ statements need to know one form only:
   C7  a nested `def f(a): return e` is `f = lambda a: e`
   C8  negations in test position are pushed inwards (De Morgan)
   C9  `if a: if b: B` (no else, nothing else in the outer body) is `if a and b: B`
+  C10 a loop over a literal sequence of names (or the fields of a module-level namedtuple) is unrolled;
+      `getattr(o, 'x')` is `o.x`, `setattr(o, 'x', v)` is `o.x = v`, constant strings are concatenated;
+      a local alias of a dotted callable of an imported module (`deepcopy = copy.deepcopy`) is written out
 Line numbers of the originals are kept on the rewritten nodes."""
 import ast
 import copy
@@ -492,10 +495,58 @@ def _simple_arg(a):
     return False
 
 
+def _nested_stmt_helpers(fn):
+    """Nested multi-statement functions of fn that can be inlined where they are called as a statement."""
+    out = {}
+    for st in ast.walk(fn):
+        if isinstance(st, ast.FunctionDef) and st is not fn and not st.decorator_list:
+            if _simple_params(st) is None or _has(st, (ast.Yield, ast.YieldFrom, ast.Await, ast.Global, ast.Nonlocal)):
+                continue
+            if _merge_returns(st.body) is not None:
+                continue                      # becomes a lambda (C7)
+            body = _strip_doc(st.body)
+            if not body or len(body) > 25 or not _tail_returns_only(body):
+                continue
+            if any(isinstance(n, ast.Name) and n.id == st.name for n in ast.walk(ast.Module(body=body, type_ignores=[]))):
+                continue
+            out[('mod', st.name)] = (st, body, False)
+    return out
+
+
+def _drop_unused_nested_defs(fn, names):
+    used = {n.id for n in ast.walk(fn) if isinstance(n, ast.Name) and isinstance(n.ctx, ast.Load)}
+
+    def walk(stmts):
+        out = []
+        for st in stmts:
+            if isinstance(st, ast.FunctionDef) and st.name in names and st.name not in used:
+                continue
+            for fld in ('body', 'orelse', 'finalbody'):
+                if hasattr(st, fld) and isinstance(getattr(st, fld), list) and not isinstance(st, (ast.FunctionDef, ast.ClassDef)):
+                    setattr(st, fld, walk(getattr(st, fld)) or [ast.copy_location(ast.Pass(), st)])
+            if isinstance(st, ast.Try):
+                for h in st.handlers:
+                    h.body = walk(h.body) or [ast.copy_location(ast.Pass(), st)]
+            out.append(st)
+        return out
+    fn.body = walk(fn.body)
+
+
 def _inline_stmt_helpers(fn, helpers, cls):
     """Replace `helper(args)`, `x = helper(args)`, `a, b = helper(args)`, `return helper(args)` statements
     by the helper's body (locals named after the call's targets where the helper returns plain names)."""
-    caller_names = {n.id for n in ast.walk(fn) if isinstance(n, ast.Name)} | {a.arg for a in fn.args.args}
+    helper_defs = {id(v[0]) for v in helpers.values()}
+
+    def own_names(node):
+        out = set()
+        for ch in ast.iter_child_nodes(node):
+            if id(ch) in helper_defs:
+                continue                      # the helper's own locals are not the caller's
+            if isinstance(ch, ast.Name):
+                out.add(ch.id)
+            out |= own_names(ch)
+        return out
+    caller_names = own_names(fn) | {a.arg for a in fn.args.args}
     counter = [0]
 
     def key_of(call):
@@ -676,20 +727,184 @@ class _Tests(ast.NodeTransformer):
         return node
 
 
+# -- C10: loops over constant names, getattr/setattr with constant names, aliases of dotted callables -------
+def _const_sequences(tree):
+    """module-level  X = collections.namedtuple('X', [...])  ->  {'X._fields': [names]}"""
+    out = {}
+    for st in tree.body:
+        if isinstance(st, ast.Assign) and len(st.targets) == 1 and isinstance(st.targets[0], ast.Name) and isinstance(st.value, ast.Call):
+            f = st.value.func
+            nm = f.attr if isinstance(f, ast.Attribute) else (f.id if isinstance(f, ast.Name) else None)
+            if nm == 'namedtuple':
+                fl = None
+                for k in st.value.keywords:
+                    if k.arg == 'field_names':
+                        fl = k.value
+                if fl is None and len(st.value.args) > 1:
+                    fl = st.value.args[1]
+                try:
+                    v = ast.literal_eval(fl)
+                    if isinstance(v, str):
+                        v = v.replace(',', ' ').split()
+                    out[st.targets[0].id + '._fields'] = list(v)
+                except Exception:
+                    pass
+    return out
+
+
+class _FoldConst(ast.NodeTransformer):
+    """'_' + 'x' -> '_x';  getattr(o, 'x') -> o.x;  setattr(o, 'x', v) as a statement -> o.x = v"""
+    def visit_BinOp(self, n):
+        self.generic_visit(n)
+        if isinstance(n.op, ast.Add) and isinstance(n.left, ast.Constant) and isinstance(n.right, ast.Constant) \
+                and isinstance(n.left.value, str) and isinstance(n.right.value, str):
+            return ast.copy_location(ast.Constant(value=n.left.value + n.right.value), n)
+        return n
+
+    def visit_JoinedStr(self, n):
+        self.generic_visit(n)
+        if all(isinstance(v, ast.Constant) or (isinstance(v, ast.FormattedValue) and isinstance(v.value, ast.Constant)
+                                               and v.conversion == -1 and v.format_spec is None) for v in n.values):
+            return ast.copy_location(ast.Constant(value=''.join(str(v.value if isinstance(v, ast.Constant) else v.value.value) for v in n.values)), n)
+        return n
+
+    def visit_Call(self, n):
+        self.generic_visit(n)
+        if isinstance(n.func, ast.Name) and n.func.id == 'getattr' and len(n.args) == 2 and not n.keywords \
+                and isinstance(n.args[1], ast.Constant) and isinstance(n.args[1].value, str) and n.args[1].value.isidentifier():
+            return ast.copy_location(ast.Attribute(value=n.args[0], attr=n.args[1].value, ctx=ast.Load()), n)
+        return n
+
+    def visit_Expr(self, n):
+        self.generic_visit(n)
+        c = n.value
+        if isinstance(c, ast.Call) and isinstance(c.func, ast.Name) and c.func.id == 'setattr' and len(c.args) == 3 and not c.keywords \
+                and isinstance(c.args[1], ast.Constant) and isinstance(c.args[1].value, str) and c.args[1].value.isidentifier():
+            new = ast.Assign(targets=[ast.Attribute(value=c.args[0], attr=c.args[1].value, ctx=ast.Store())], value=c.args[2])
+            return ast.copy_location(new, n)
+        return n
+
+
+def _unroll_const_loops(fn, seqs):
+    """`for NAME in ('a', 'b', ...): body` (a literal tuple/list of string constants, or the fields of a module-level
+    namedtuple) is the body repeated with NAME replaced by each constant."""
+    def seq_of(it):
+        if isinstance(it, (ast.Tuple, ast.List)) and it.elts and all(isinstance(e, ast.Constant) and isinstance(e.value, str) for e in it.elts):
+            return [e.value for e in it.elts]
+        if isinstance(it, ast.Attribute) and isinstance(it.value, ast.Name) and (it.value.id + '.' + it.attr) in seqs:
+            return seqs[it.value.id + '.' + it.attr]
+        return None
+
+    def walk(stmts):
+        out = []
+        for st in stmts:
+            for fld in ('body', 'orelse', 'finalbody'):
+                if hasattr(st, fld) and isinstance(getattr(st, fld), list) and not isinstance(st, (ast.FunctionDef, ast.ClassDef)):
+                    setattr(st, fld, walk(getattr(st, fld)))
+            if isinstance(st, ast.Try):
+                for h in st.handlers:
+                    h.body = walk(h.body)
+            if isinstance(st, ast.For) and not st.orelse and isinstance(st.target, ast.Name):
+                vals = seq_of(st.iter)
+                body_ok = vals is not None and len(vals) <= 40 and not _has(ast.Module(body=st.body, type_ignores=[]), (ast.Break, ast.Continue)) \
+                    and st.target.id not in _stored_names(st.body)
+                if body_ok:
+                    for v in vals:
+                        for b in st.body:
+                            nb = _Subst({st.target.id: ast.Constant(value=v)}).visit(copy.deepcopy(b))
+                            nb = _FoldConst().visit(nb)
+                            for n in ast.walk(nb):
+                                if hasattr(n, 'lineno'):
+                                    n.lineno = st.lineno
+                                    n.end_lineno = getattr(st, 'end_lineno', st.lineno)
+                            out.append(nb)
+                    continue
+            out.append(st)
+        return out
+    fn.body = walk(fn.body)
+
+
+def _propagate_aliases(fn, module_names):
+    """`f = a.b.c` (assigned once, `a` a module-level name that the function never rebinds) : uses of `f` are `a.b.c`."""
+    counts = {}
+    cand = {}
+    for n in ast.walk(fn):
+        if isinstance(n, ast.Name) and isinstance(n.ctx, (ast.Store, ast.Del)):
+            counts[n.id] = counts.get(n.id, 0) + 1
+        if isinstance(n, (ast.FunctionDef, ast.Lambda)) and n is not fn:
+            for a in n.args.args:
+                counts[a.arg] = counts.get(a.arg, 0) + 1
+    params = {a.arg for a in fn.args.args + fn.args.kwonlyargs}
+    for st in ast.walk(fn):
+        if isinstance(st, ast.Assign) and len(st.targets) == 1 and isinstance(st.targets[0], ast.Name) and isinstance(st.value, ast.Attribute):
+            chain = st.value
+            while isinstance(chain, ast.Attribute):
+                chain = chain.value
+            nm = st.targets[0].id
+            if isinstance(chain, ast.Name) and chain.id in module_names and chain.id not in counts and chain.id not in params \
+                    and counts.get(nm) == 1 and nm not in params:
+                cand[nm] = st
+    if not cand:
+        return
+
+    class P(ast.NodeTransformer):
+        def visit_Name(self, n):
+            if isinstance(n.ctx, ast.Load) and n.id in cand:
+                return ast.copy_location(copy.deepcopy(cand[n.id].value), n)
+            return n
+    drop = {id(v) for v in cand.values()}
+
+    def walk(stmts):
+        out = []
+        for st in stmts:
+            if id(st) in drop:
+                continue
+            for fld in ('body', 'orelse', 'finalbody'):
+                if hasattr(st, fld) and isinstance(getattr(st, fld), list) and not isinstance(st, (ast.FunctionDef, ast.ClassDef)):
+                    setattr(st, fld, walk(getattr(st, fld)) or [ast.copy_location(ast.Pass(), st)])
+            if isinstance(st, ast.Try):
+                for h in st.handlers:
+                    h.body = walk(h.body) or [ast.copy_location(ast.Pass(), st)]
+            out.append(st)
+        return out
+    fn.body = walk(fn.body)
+    P().visit(fn)
+
+
 def canonicalize(tree):
     """In-place canonicalisation of a module (function and method bodies, nested ones included)."""
     helpers = _expr_helpers(tree)
     if helpers:
         _InlineExprHelpers(helpers).visit(tree)
     sh = {k: v for k, v in _stmt_helpers(tree).items() if k not in helpers}
-    if sh:
-        for st in tree.body:
-            if isinstance(st, ast.FunctionDef):
-                _inline_stmt_helpers(st, sh, None)
-            elif isinstance(st, ast.ClassDef):
-                for m in st.body:
-                    if isinstance(m, ast.FunctionDef):
-                        _inline_stmt_helpers(m, sh, st.name)
+    for st in tree.body:
+        fns = [(st, None)] if isinstance(st, ast.FunctionDef) else \
+            ([(m, st.name) for m in st.body if isinstance(m, ast.FunctionDef)] if isinstance(st, ast.ClassDef) else [])
+        for f_, c_ in fns:
+            nh = _nested_stmt_helpers(f_)
+            allh = dict(sh)
+            allh.update(nh)
+            if allh:
+                _inline_stmt_helpers(f_, allh, c_)
+            if nh:
+                _drop_unused_nested_defs(f_, {k[1] for k in nh})
+    seqs = _const_sequences(tree)
+    module_names = set()
+    for st in tree.body:
+        if isinstance(st, (ast.Import, ast.ImportFrom)):
+            for a in st.names:
+                module_names.add((a.asname or a.name).split('.')[0])
+    for node in ast.walk(tree):
+        if isinstance(node, (ast.FunctionDef, ast.AsyncFunctionDef)):
+            _unroll_const_loops(node, seqs)
+    _FoldConst().visit(tree)
+    for st in tree.body:
+        if isinstance(st, ast.FunctionDef):
+            _propagate_aliases(st, module_names)
+        elif isinstance(st, ast.ClassDef):
+            for m in st.body:
+                if isinstance(m, ast.FunctionDef):
+                    _propagate_aliases(m, module_names)
     for node in ast.walk(tree):
         if isinstance(node, (ast.FunctionDef, ast.AsyncFunctionDef)):
             _nested_defs_to_lambdas(node)
